@@ -1,5 +1,6 @@
 import JetVerif.Props.C05
 import JetVerif.Props.C05P
+import JetVerif.Props.C05E
 open JetVerif.Props.C05
 #print axioms truthy_bool
 #print axioms truthy_int
@@ -29,3 +30,14 @@ open JetVerif.Props.C05
 #print axioms JetVerif.Props.C05P.template_body_reads_its_statements
 #print axioms JetVerif.Props.C05P.if_chain_is_parsed_as_written
 #print axioms JetVerif.Props.C05P.range_is_parsed_as_written
+#print axioms JetVerif.Props.C05E.if_chain_runs_the_first_truthy_branch
+#print axioms JetVerif.Props.C05E.if_chain_list_runs_the_first_truthy_branch
+#print axioms JetVerif.Props.C05E.later_conditions_are_not_evaluated
+#print axioms JetVerif.Props.C05E.if_chain_all_falsy_runs_else
+#print axioms JetVerif.Props.C05E.if_chain_all_falsy_no_else_writes_nothing
+#print axioms JetVerif.Props.C05E.if_chain_condition_failure_is_the_failure
+#print axioms JetVerif.Props.C05E.if_chain_condition_crash_is_the_crash
+#print axioms JetVerif.Props.C05E.if_chain_restores_scope
+#print axioms JetVerif.Props.C05E.parsed_if_chain_renders_the_first_truthy_text
+#print axioms JetVerif.Props.C05E.parsed_if_chain_all_falsy_renders_else_text
+#print axioms JetVerif.Props.C05E.parsed_if_chain_unbound_identifier_fails
